@@ -32,11 +32,11 @@ Theorem prefix_placement_same_overrides cs ic os calls1 t asn items1 items2 call
   simple_guard cs ic inv = true ->
   nth_error cs t = Some c ->
   forallb (copt_free cs c) os = true ->
-  copts_ok true cs (rc_args (init_ctx ic)) os = true ->
+  copts_ok cs (rc_args (init_ctx ic)) os = true ->
   exists gf gp,
     prog_obs ic cs (flat_map spell_copt os ++ spell cs inv) = Ok gf /\
     prog_obs ic cs (spell cs calls1 ++ (asn :: flat_map (spell_item c) items1)
-                    ++ flat_map spell_copt (map unglue os)
+                    ++ flat_map spell_copt os
                     ++ flat_map (spell_item c) items2 ++ spell cs calls2) = Ok gp /\
     overrides_from gf pw = overrides_from gp pw /\
     ProgramModel.runtime_path_of (coreargs_of (g_core gf) pw) None
